@@ -534,6 +534,14 @@ def correspond_client(res, n):
     corpus = [c for c in json.load(open(core.VERIF + '/corpus/C20.json')) if c.get('mode') == 'client']
     cases = [c['case'] for c in corpus] + BOUNDARY_CLIENT + [gen_client_case(rng) for _ in range(n)] + [LEAK_CASE]
     outs = core.run_driver('mgr_driver.py', dict(mode='client', cases=cases))
+    if outs and outs[-1] and outs[-1][-1].get('hang'):
+        bad = cases[len(outs) - 1]
+        res.alarms.append(dict(signature='C20:client-operation-hangs-or-crashes',
+                               what='a real manager client operation did not return (%s) in %s'
+                                    % (outs[-1][-1].get('error', 'timeout'), json.dumps(bad)[:500]),
+                               replay=dict(mode='client', case=bad)))
+        outs = outs[:-1]
+        cases = cases[:len(outs)]
     terms = [client_case_term(c, o[:-1]) for c, o in zip(cases, outs)]
     codes, _ = core.coq_eval('C20c', CHEADER, core.chunks(terms, 100))
     codes = dict(codes)
@@ -577,8 +585,8 @@ def correspond_client(res, n):
                                         % (fin['final_objects'], json.dumps(c)[:500]), replay=rp))
     k0 = len(corpus)
     res.add_cov(evaluations=len(cases), distinct=len(nontrivial), traces=len(cases),
-                samples=[dict(case=cases[k0], impl=outs[k0]), dict(case=cases[k0 + len(BOUNDARY_CLIENT)],
-                                                                   impl=outs[k0 + len(BOUNDARY_CLIENT)])],
+                samples=[dict(case=c, impl=o) for c, o in list(zip(cases, outs))[k0:k0 + 1]]
+                + [dict(case=c, impl=o) for c, o in list(zip(cases, outs))[k0 + len(BOUNDARY_CLIENT):k0 + len(BOUNDARY_CLIENT) + 1]],
                 rule='client level: the real accepter/handle_request/serve_client threads in-process, real '
                      'BaseManager/BaseProxy objects over real connections; random sequences of 3-22 operations '
                      '(create list/dict/Value/Shelf, copy by pickling, drop, unpickle a stale token, call); '
@@ -723,11 +731,11 @@ def correspond_procs(res, n):
 
 def run(res):
     res.proof_step('Props/C20.v', extra_targets=['Model/Manager.vo'], kernels_needed=['G_manager'])
-    n = 150 if res.tier == 'quick' else 6000
+    n = 150 if res.tier == 'quick' else 4000
     if res.broken:
         n = max(n, 1500)
     late = correspond_server(res, n)
-    late += correspond_client(res, 40 if res.tier == 'quick' and not res.broken else n // 3)
+    late += correspond_client(res, 40 if res.tier == 'quick' and not res.broken else min(n // 3, 800))
     if res.tier != 'quick':
         late += correspond_procs(res, 25)
     # defects of the unchanged tree (see docs/C20.md): one alarm per signature, smallest witness,
@@ -753,14 +761,40 @@ def run(res):
 
 def replay(path):
     d = json.load(open(path))
-    rp = d['replay']
+    rp = d.get('replay')
+    if not rp:
+        print('no concrete input in this replay file (broken obligations):')
+        for b in d.get('broken', []):
+            print(' ', b.get('kind'), b.get('name'))
+        return 1
     c = rp['case']
-    out = core.run_driver('mgr_driver.py', dict(mode=rp['mode'], cases=[c]))[0]
+    out = core.run_driver('mgr_driver.py', dict(mode=rp['mode'], cases=[c]), timeout=900)[0]
+    print('signature:', d.get('signature'))
     print('case:', json.dumps(c))
-    print('implementation now:', json.dumps(out))
+    if out and out[-1].get('hang'):
+        print('implementation now: the operation does not return / crashes:', out[-1])
+        return 1
+    print('implementation now:')
+    for step, o in zip(c, out):
+        print('  ', json.dumps(step)[:160], '->', json.dumps({k: v for k, v in o.items() if k != 'order_ok'})[:400])
     if rp['mode'] == 'server':
         codes, _ = core.coq_eval('C20r', HEADER, [[server_case_term(c, out)]])
+        bad_order = [o for o in out if not o.get('order_ok', True)]
+        if bad_order:
+            print('a request was read before the handshake completed')
+    elif rp['mode'] == 'client':
+        codes, _ = core.coq_eval('C20r', CHEADER, [[client_case_term(c, out[:-1])]])
+        print('   after dropping every proxy:', out[-1])
+        bad_order = []
     else:
-        codes, _ = core.coq_eval('C20r', CHEADER, [[client_case_term(c, out)]])
-    print('model agrees' if not codes else 'model disagrees / monitor (code %d)' % codes[0][1])
-    return 1 if codes else 0
+        codes, _ = core.coq_eval('C20r', CHEADER, [[client_case_term(procs_to_model(c, out[:-1]), out[:-1])]])
+        print('   after every process released its proxies:', out[-1])
+        bad_order = []
+    code = codes[0][1] if codes else 0
+    print({0: 'model and implementation agree, monitors satisfied',
+           1: 'input outside the model',
+           2: 'implementation differs from the proved model',
+           3: 'agree, but C20 is violated: Iterator proxy __next__ is not exposed',
+           4: 'agree, but a call through an offered proxy method differs from the local object',
+           5: 'agree, but C20 is violated: result of a proxy-returning method leaked'}[code])
+    return 1 if (code or bad_order) else 0
